@@ -51,6 +51,8 @@ StartClauses(e) ==
      \* entries of the file under foreign keys never reach the module
      <<"Foreign", e.ok => \A q \in DOMAIN e.fgot : e.fgot[q] = "v0">>,
      <<"Consistent", e.target = s.target>>,
+     \* the start-up save may only be missing when the file left on disk cannot do harm (see ReloadHarmless)
+     <<"Start.saved", e.ok => (e.target = e.cur \/ P!ReloadHarmless(s.file, e.got))>>,
      <<"Retry.believed", e.ok => P!SkipOK(e.skip, e.target, e.cur)>> >>
 
 (* Dev_BelieveEarly (known finding, only with DevBelieveEarly = TRUE): the snapshot of a save that *)
